@@ -1,7 +1,7 @@
 """C01 — GJK distance: feasible, consistent, optimal (structural clauses)."""
 from . import scopes
 from ..core.report import DOMAIN_D
-from ..rules import mink, simplex, loops, buffers, clip, runmin, unpack
+from ..rules import mink, simplex, loops, buffers, clip, runmin, unpack, ericson, misc2
 
 J = "distance3d.gjk._gjk_jolt"
 
@@ -28,4 +28,6 @@ def run(idx, rep, tier):
     loops.r_loop(idx, rep, [J], floor=4)
     clip.r_clipguard(idx, rep)
     runmin.r_runmin(idx, rep, [J], floor=2)
+    ericson.r_ericson(idx, rep)
+    misc2.r_dupcond(idx, rep, [m.name for m in idx.lib_modules()], floor=3)
     unpack.r_unpack(idx, rep, floor=15)
